@@ -259,36 +259,32 @@ mod numeric_formatting {
         integer_fmt: &[char],
         unformatted_str: &str,
     ) -> Result<String, RuntimeError> {
+        if integer_fmt.iter().any(|ch| *ch != '#' && *ch != ',') {
+            // unsupported formatting character
+            return Err(RuntimeError::IllegalFunctionCall);
+        }
+        // the sign is not a digit: it goes directly before the first digit
+        let (sign, digits) = match unformatted_str.strip_prefix('-') {
+            Some(digits) => ("-", digits),
+            _ => ("", unformatted_str),
+        };
         let mut result: String = String::new();
-        let unformatted: Vec<char> = unformatted_str.chars().collect();
-        // start with the rightmost digit
-        let mut i: usize = integer_fmt.len();
-        let mut j: usize = unformatted.len();
-        while i > 0 || j > 0 {
-            if i > 0 {
-                match integer_fmt[i - 1] {
-                    ',' => {
-                        result.insert(0, if j > 0 { ',' } else { ' ' });
-                    }
-                    '#' => {
-                        if j > 0 {
-                            result.insert(0, unformatted[j - 1]);
-                            j -= 1;
-                        } else {
-                            result.insert(0, ' ');
-                        }
-                    }
-                    _ => {
-                        // unsupported formatting character
-                        return Err(RuntimeError::IllegalFunctionCall);
-                    }
+        if integer_fmt.contains(&',') {
+            // a comma anywhere in the integer part asks for a comma
+            // to the left of every third digit
+            for (i, ch) in digits.chars().enumerate() {
+                if i > 0 && (digits.len() - i) % 3 == 0 {
+                    result.push(',');
                 }
-                i -= 1;
-            } else {
-                // we run out formatting characters but we still have digits to print
-                result.insert(0, unformatted[j - 1]);
-                j -= 1;
+                result.push(ch);
             }
+        } else {
+            result.push_str(digits);
+        }
+        result.insert_str(0, sign);
+        // every formatting character, including the comma, is one position of the field
+        while result.len() < integer_fmt.len() {
+            result.insert(0, ' ');
         }
         Ok(result)
     }
